@@ -451,6 +451,28 @@ func (ga *GA) opSites() []opSite {
 				params[info.Defs[nm]] = nm.Name
 			}
 		}
+		// the variable a type switch binds stands for the switch's subject
+		tsSubject := map[types.Object]ast.Expr{}
+		ast.Inspect(fd.Body, func(x ast.Node) bool {
+			ts, ok := x.(*ast.TypeSwitchStmt)
+			if !ok {
+				return true
+			}
+			as, ok := ts.Assign.(*ast.AssignStmt)
+			if !ok || len(as.Rhs) != 1 {
+				return true
+			}
+			ta, ok := ast.Unparen(as.Rhs[0]).(*ast.TypeAssertExpr)
+			if !ok {
+				return true
+			}
+			for _, cc := range ts.Body.List {
+				if obj := info.Implicits[cc]; obj != nil {
+					tsSubject[obj] = ta.X
+				}
+			}
+			return true
+		})
 		ast.Inspect(fd.Body, func(x ast.Node) bool {
 			cl, ok := x.(*ast.CompositeLit)
 			if !ok {
@@ -487,6 +509,10 @@ func (ga *GA) opSites() []opSite {
 					if pn, ok := params[info.Uses[id]]; ok {
 						site.fields[fname] = pn
 						break
+					}
+					if subj, ok := tsSubject[info.Uses[id]]; ok {
+						v = ast.Unparen(subj)
+						continue
 					}
 					nv := resolveLocal(info, fd.Body, v)
 					if nv == v {
